@@ -1,11 +1,38 @@
 package lru
 
-import "github.com/acquirecloud/golibs/container/iterable"
+import (
+	"reflect"
+
+	"github.com/acquirecloud/golibs/zsimrt"
+)
 
 // VerifState returns, without locking: resident entries, in-flight creations,
-// whether the cache lock is held, list nodes reachable from the head and how
-// many are pinned. Test-only (scratch copy); call at quiescence.
+// whether the cache lock is held, list nodes reachable from the head of the
+// recency list and how many of them are pinned by a reference count (nodes is
+// -1 when the recency structure is not the iterable.Map list the C11 oracle
+// knows how to walk). Test-only (scratch copy); found by reflection so that a
+// change of the cache's internal layout does not break the harness build.
 func VerifState[PK any, K comparable, V any](p *ECache[PK, K, V]) (resident, inflight int, held bool, nodes, pinned int) {
-	nodes, pinned = iterable.VerifNodes(p.items)
-	return iterable.VerifLen(p.items), len(p.inflight), p.lock.Held(), nodes, pinned
+	nodes = -1
+	if items, ok := zsimrt.Field(p, "items"); ok {
+		resident, _ = zsimrt.LenOf(items)
+		if head, ok := zsimrt.Field(items, "head"); ok {
+			if n, pn, ok := zsimrt.ListWalk(head, "next", "refCnt"); ok {
+				nodes, pinned = n, pn
+			}
+		}
+	}
+	if infl, ok := zsimrt.Field(p, "inflight"); ok {
+		inflight, _ = zsimrt.LenOf(infl)
+	}
+	for _, name := range []string{"lock", "mu", "mtx"} {
+		if l, ok := zsimrt.Field(p, name); ok && l.CanAddr() {
+			if h, ok := l.Addr().Interface().(interface{ Held() bool }); ok {
+				held = h.Held()
+				break
+			}
+		}
+	}
+	_ = reflect.Value{}
+	return
 }
